@@ -2,6 +2,7 @@ package engb
 
 import (
 	"context"
+	"sort"
 	"sync"
 
 	"github.com/orda-io/orda/client/pkg/model"
@@ -141,6 +142,7 @@ func (c *call) decodeReq() proto.Message {
 	if err := proto.Unmarshal(c.reqB, m); err != nil {
 		panic(err)
 	}
+	sortPacks(m)
 	return m
 }
 
@@ -177,6 +179,7 @@ func invoke(inst *serverInst, method string, req proto.Message) callResult {
 	if e := proto.Unmarshal(b, out); e != nil {
 		return callResult{err: status.Error(codes.Internal, e.Error())}
 	}
+	sortPacks(out)
 	return callResult{msg: out}
 }
 
@@ -185,4 +188,13 @@ func wrap[T proto.Message](m T, err error) (proto.Message, error) {
 		return nil, err
 	}
 	return m, nil
+}
+
+// sortPacks orders the packs of a push-pull message by key. The client builds them while ranging
+// over a Go map and the server collects the answers as they come; nothing depends on the order
+// except the reproducibility of the simulation.
+func sortPacks(m proto.Message) {
+	if pp, ok := m.(*model.PushPullMessage); ok {
+		sort.SliceStable(pp.PushPullPacks, func(i, j int) bool { return pp.PushPullPacks[i].Key < pp.PushPullPacks[j].Key })
+	}
 }
